@@ -114,6 +114,7 @@ type FV struct {
 	prog   *ssa.Program
 	fn     *ssa.Function
 	fc     *FuncContract
+	tracked map[string]int
 	bv     bool
 	decls  []string
 	declS  map[string]bool
@@ -327,6 +328,11 @@ func (fv *FV) wfCond(term, sort string, bound string, depth int) []string {
 			switch ft.Underlying().(type) {
 			case *types.Pointer, *types.Map:
 				out = append(out, fmt.Sprintf("(<= %s %s)", sub, bound), fmt.Sprintf("(<= 0 %s)", sub))
+				if pt, ok := ft.Underlying().(*types.Pointer); ok {
+					if tn := fv.trackedName(pt.Elem()); tn != "" {
+						out = append(out, fmt.Sprintf("(or (= %s 0) (= (rtype %s) %d))", sub, sub, fv.tracked[tn]))
+					}
+				}
 			default:
 				out = append(out, fv.wfCond(sub, si.FSorts[i], bound, depth+1)...)
 			}
